@@ -1,4 +1,5 @@
 """C12: entering a program line by line in the interactive interpreter equals running it whole."""
+import os
 import random
 from collections import Counter
 
@@ -21,8 +22,11 @@ def gen_history(rng):
         pieces = prog + [G.render_cmd(c) for c in cmds[:2]]
     elif r < 0.3:
         pieces = ("형" + "." * 65 + " 항. 혀어어어어어어엉" + "." * 6912 + " 항. 형.. 항.").split(" ")
-    elif r < 0.4:
+    elif r < 0.34:
         pieces = [G.render_cmd(c) for c in cmds] + ["흑.", "항"]
+    elif r < 0.4:
+        a, b = rng.choice([66, 67, 72]), rng.choice([69, 70, 33])
+        pieces = ["형" + "." * a, "항.", "형" + "." * b, "항.."] + rng.choice([["흑.", "항"], ["흑..", "핫"]])
     elif r < 0.75:
         pieces = S.scripted(rng, with_read=False).split(" ")
     else:
@@ -66,6 +70,21 @@ def transcript_from_events(evs, end):
     if end in ("alive", "quit"):
         t += PROMPT
     return t
+
+
+RWILD = r"(?:(?!(?:> )*(?:\[stdout\] |\[stderr\] ))[^\n]*\n|> )*?"
+
+
+def loose_pattern(evs):
+    """only the text shown for stdout/stderr is fixed; header, prompts, help text may be reworded"""
+    import re
+    pat = RWILD
+    for ev in evs:
+        if ev[0] == "F":
+            seg = ("[stdout] " + ev[1] + "\n" if ev[1] else "") + ("[stderr] " + ev[2] + "\n" if ev[2] else "")
+            if seg:
+                pat += re.escape(seg) + RWILD
+    return re.compile(pat + r"\Z", re.S)
 
 
 def parse_model_line(line):
@@ -193,7 +212,10 @@ def run(prop, tier, seed):
             continue
         want = transcript_from_events(sev, send)
         want_cls = {"alive": "exit0", "quit": "exit0", "exit0": "exit0", "exit1": "exit1"}.get(send, "exit1")
-        ok = got == want and cls == want_cls and (("[error]" in gerr) == send.startswith("err"))
+        ok = got == want and cls == want_cls and ((gerr != "") == send.startswith("err"))
+        if not ok and cls == want_cls and ((gerr != "") == send.startswith("err")) and loose_pattern(sev).match(got):
+            hist["cosmetic-difference"] += 1       # reworded header/help/prompt: the shown program text is exactly right
+            ok = True
         if not ok:
             propfail.append((h, got, want, cls, want_cls, gerr))
             continue
@@ -218,6 +240,28 @@ def run(prop, tier, seed):
     if not pc["ok"]:
         V.violation("proof:" + prop, "proof obligations of %s do not check: %s" % (prop, "; ".join(pc["problems"])),
                     dict(theorem_file="coq/Props/%s.v" % prop, problems=pc["problems"]), found_input=False)
+    # a single entered line that writes a very long text (a loop closed by the last command of the history): expected
+    # transcript from the binary's own whole-program run
+    big = G.count_loop(70000 if quick else 200000)
+    first, last = big.rsplit(" ", 1)
+    d = C.scratch_dir("c12")
+    bp = os.path.join(d, "big.hyeong")
+    with open(bp, "w", encoding="utf-8") as fh:
+        fh.write(big)
+    (wc, wo, we), (gc, go, ge) = C.pmap(lambda i: C.run_hyeong(["run", "-O0", bp], b"", timeout=300) if i == 0
+                                        else C.run_hyeong([], (first + "\n" + last + "\n").encode("utf-8"), timeout=300), [0, 1])
+    whole = (C.split_run_stdout(wo) or b"").decode("utf-8", "replace")
+    hist["long-output-history"] += 1
+    if wc == "exit0" and len(whole) > 65536:
+        want_big = HEADER + PROMPT + "[stdout] " + whole[:1] + "\n" + PROMPT + "[stdout] " + whole[1:] + "\n" + PROMPT
+        got_big = go.decode("utf-8", "replace")
+        if got_big != want_big or gc != "exit0":
+            ok_loose = gc == "exit0" and loose_pattern([("F", whole[:1], ""), ("F", whole[1:], "")]).match(got_big)
+            if not ok_loose:
+                V.violation("repl:long-output", "a line that writes %d characters is not shown as one text: transcript has %d characters, begins %r, "
+                            "the whole run writes %r..." % (len(whole) - 1, len(got_big), got_big[:120], whole[:20]),
+                            dict(lines=[first[:200] + "...", last], transcript_head=got_big[:400], transcript_len=len(got_big),
+                                 whole_run_len=len(whole)))
     V.coverage = dict(
         obligations=pc["obligations"], discharged=pc["discharged"], supporting_lemmas=pc["supporting_lemmas"],
         checker_cmd="make -C coq Props/%s.vo && coqc -Q coq HV coq/Props/%s.v (Print Assumptions) ; python3 tools/check.py --property %s --tier %s"
